@@ -209,12 +209,12 @@ func c17Run(raw []byte) (*Line, error) {
 		for _, lev := range c.Levels {
 			var n int
 			var t []float64
-			// TicksAtLevel is not called where CountTicks reports more than 1e5 ticks (far below
+			// TicksAtLevel is not called where CountTicks reports more than 2000 ticks (far below
 			// the natural level a tick list of 1e19 elements cannot exist): status 3
 			skipped := false
 			pan, _ := catch(func() {
 				n = count(lev)
-				if c.K == 1 && (n > 100000 || n < 0) {
+				if c.K == 1 && (n > 2000 || n < 0) {
 					skipped = true
 					return
 				}
